@@ -19,8 +19,8 @@ import (
 )
 
 func racePart(run *vkit.Run) {
-	n := run.N(10, 300)
-	workers := runtime.GOMAXPROCS(0) / 4
+	n := run.N(10, 240)
+	workers := runtime.GOMAXPROCS(0) / 3
 	if workers < 1 {
 		workers = 1
 	}
@@ -49,10 +49,11 @@ func racePart(run *vkit.Run) {
 		}
 		tokens := make(chan struct{}, length+8)
 		var hookOn atomic.Bool
+		var gets atomic.Int64
 		// every datastore read of the serving store lets the putter advance by one certificate
 		// and yields, so Puts land between the server's Latest() and its range reads
 		cs, err := newStoreHook(ctx, ch, s0, func() {
-			if !hookOn.Load() {
+			if !hookOn.Load() || gets.Add(1)%3 != 0 {
 				return
 			}
 			select {
